@@ -2,3 +2,5 @@
 import Tcell.Model.Cell
 import Tcell.Model.CellOps
 import Tcell.Props.C08
+import Tcell.Props.C12
+import Tcell.Props.C03
